@@ -195,3 +195,31 @@ Proof.
     - eapply perm_trans; eassumption. }
   apply G, kinds_read_perm.
 Qed.
+
+(* rooms::read returns the kinds in descending order of capacity *)
+Lemma insert_kind_sorted x : forall l, StronglySorted (fun a b : kind => kind_cap a <= kind_cap b) l ->
+  StronglySorted (fun a b : kind => kind_cap a <= kind_cap b) (insert_kind x l).
+Proof.
+  induction l as [|y t IH]; intros H; simpl; [constructor; constructor|].
+  inversion H as [|? ? Ht Hy]; subst. destruct (kind_cap x <? kind_cap y) eqn:E.
+  - apply Nat.ltb_lt in E. constructor; [exact H|]. constructor; [lia|]. rewrite Forall_forall in *. intros z Hz. specialize (Hy z Hz). lia.
+  - apply Nat.ltb_ge in E. constructor; [apply IH; exact Ht|]. rewrite Forall_forall in *. intros z Hz.
+    apply (Permutation_in _ (insert_kind_perm x t)) in Hz. destruct Hz as [<-|Hz]; [exact E|apply Hy; exact Hz].
+Qed.
+Theorem kinds_read_descending raw : forall i j, i <= j -> j < length (kinds_read raw) ->
+  kind_cap (nth j (kinds_read raw) (0, 0, 0)) <= kind_cap (nth i (kinds_read raw) (0, 0, 0)).
+Proof.
+  assert (S : StronglySorted (fun a b : kind => kind_cap a <= kind_cap b) (fold_left (fun acc x => insert_kind x acc) raw [])).
+  { assert (G : forall l acc, StronglySorted (fun a b : kind => kind_cap a <= kind_cap b) acc ->
+                 StronglySorted (fun a b : kind => kind_cap a <= kind_cap b) (fold_left (fun acc x => insert_kind x acc) l acc)).
+    { induction l as [|x t IH]; intros acc Ha; simpl; [exact Ha|]. apply IH. apply insert_kind_sorted. exact Ha. }
+    apply G. constructor. }
+  unfold kinds_read. set (L := fold_left (fun acc x => insert_kind x acc) raw []) in *. intros i j Hij Hj. rewrite rev_length in Hj.
+  rewrite !rev_nth by lia.
+  assert (N : forall l, StronglySorted (fun a b : kind => kind_cap a <= kind_cap b) l -> forall a b, a <= b -> b < length l ->
+              kind_cap (nth a l (0, 0, 0)) <= kind_cap (nth b l (0, 0, 0))).
+  { induction 1 as [|x t Ht IHt Hx]; intros a b Hab Hb; simpl in Hb; [lia|]. destruct a as [|a], b as [|b]; simpl; try lia.
+    - rewrite Forall_forall in Hx. apply Hx. apply nth_In. lia.
+    - apply IHt; lia. }
+  apply (N L S); lia.
+Qed.
